@@ -521,6 +521,47 @@ class PairSem(Semantics):
         return res[0], res[1]
 
 
+def r_reg_who(ck: Checker, rule: str = "R-REG-OWN") -> None:
+    """Who gets registered: a store into the registry enters the object the function itself is building (self in __post_init__, the object
+    it has just constructed in _deserialize, the receiver it has itself removed in replace) — never the elements of an enumeration of
+    nodes that existed before the call (children, descendants): those are registered or detached by their own history (positive pattern)."""
+    n = 0
+    for f in ck.repo.functions([ck.repo.mod(NODE)]):
+        fn = f.node
+        stores = [(node, key) for kind, node, key in reg_mutations(fn) if kind == "store"]
+        if not stores:
+            continue
+        loopvars: dict[str, ast.AST] = {}
+        for x in ast.walk(fn):
+            if isinstance(x, (ast.For, ast.comprehension)):
+                for t in ast.walk(x.target):
+                    if isinstance(t, ast.Name):
+                        loopvars[t.id] = x
+        parent = {id(c): p_ for p_ in ast.walk(fn) for c in ast.iter_child_nodes(p_)}
+        for node, key in stores:
+            val: ast.AST | None = None
+            st = parent.get(id(node))
+            if isinstance(node, ast.Subscript) and isinstance(st, ast.Assign):
+                val = st.value
+            elif isinstance(node, ast.Call) and len(node.args) == 2:
+                val = node.args[1]
+            if val is None:
+                continue
+            n += 1
+            what = f"{f.qualname}: the object entered into the registry is the one this call builds or has itself removed, not a node enumerated from an existing tree"
+            names = {x.id for x in ast.walk(val) if isinstance(x, ast.Name)}
+            hit = sorted(names & set(loopvars))
+            if hit:
+                ck.violation(rule, f, node, what, positive=True,
+                             construct=f"{f.qualname}: {norm(st if isinstance(st, ast.Assign) else node)[:60]} registers `{hit[0]}`, an element of {norm(getattr(loopvars[hit[0]], 'iter', loopvars[hit[0]]))[:40]} — a node that existed before the call (and may have been detached) becomes registered")
+            elif f.qualname == "ASTNode.__post_init__" and norm(val) != "self":
+                ck.violation(rule, f, node, what, positive=True, construct=f"{f.qualname}: registers {norm(val)[:40]} instead of the node under construction")
+            else:
+                ck.holds(rule, f, node, what, value=norm(val)[:40])
+    if n < 3:
+        ck.incomplete(rule, None, None, f"only {n} registry stores with a value found (3 confirmed by hand)")
+
+
 def r_reg_pair(ck: Checker) -> None:
     f = ck.repo.func(NODE, "ASTNode.replace")
     sem = PairSem("self")
@@ -532,8 +573,14 @@ def r_reg_pair(ck: Checker) -> None:
     what = "ASTNode.replace: every exceptional exit after the original was unregistered passes through the restore of that entry"
     bad = [s_ for s_ in out.exc if s_[0]]
     if bad:
-        ck.violation("R-REG-PAIR", f, f.node, what, evaluations=len(out.exc),
-                     construct="replace: exceptional exit with the original possibly unregistered (state ['dirty'])")
+        # no store into the registry anywhere in replace (helpers inlined) nor in a function it calls: nothing can restore the entry
+        storing = {g.qualname.split(".")[-1] for g in ck.repo.functions([ck.repo.mod(NODE)]) if any(k == "store" for k, _, _ in reg_mutations(g.node))}
+        called = {(dotted(c.func) or "").split(".")[-1] for fn_ in (f.raw, f.node) if fn_ is not None for c in ast.walk(fn_) if isinstance(c, ast.Call)}
+        no_restore = not any(k == "store" for fn_ in (f.raw, f.node) if fn_ is not None for k, _, _ in reg_mutations(fn_)) \
+            and not (called & (storing - {"__post_init__", "_deserialize", "replace"}))
+        ck.violation("R-REG-PAIR", f, f.node, what, evaluations=len(out.exc), positive=no_restore,
+                     construct="replace: exceptional exit with the original possibly unregistered (state ['dirty'])"
+                     + (" — replace contains no store into the registry at all" if no_restore else ""))
     elif not out.exc:
         ck.incomplete("R-REG-PAIR", f, f.node, "no exceptional exit found in replace")
     else:
@@ -721,6 +768,7 @@ def run(ck: Checker) -> None:
     ck.guard("R-REG-IDENT", lambda: r_reg_ident(ck))
     ck.guard("R-REG-FRESH", lambda: r_reg_fresh(ck))
     ck.guard("R-REG-PAIR", lambda: r_reg_pair(ck))
+    ck.guard("R-REG-OWN", lambda: r_reg_who(ck))
     ck.guard("R-DETACH-ALL", lambda: r_detach_all(ck))
     ck.guard("R-ID-DET", lambda: r_id_det(ck))
     ck.guard("R-GET-FORM", lambda: r_get_form(ck))
